@@ -81,6 +81,17 @@ def fn_predict(n):
     return _F[k]
 
 
+def fn_predict_diag(n):
+    k = ("predict_diag", n)
+    if k not in _F:
+        W = ca.SX.sym("W", ca.Sparsity.diag(n))
+        F = ca.SX.sym("F", n, n)
+        Q = ca.SX.sym("Q", n, n)
+        Wd = _util().sqrt_covariance_predict(W, F, Q)
+        _F[k] = ca.Function("sqrt_cov_predict_diagW", [W, F, Q], [ca.densify(Wd)])
+    return _F[k]
+
+
 def fn_correct(n, m):
     k = ("correct", n, m)
     if k not in _F:
@@ -185,6 +196,33 @@ def explore_predict(case):
         if not err <= 1e-9 * (1 + max(abs(float(b)) for b in outs[0])):
             res.fail(site="util.sqrt_covariance_predict", clause="double_matches_exact", cls="n=%d" % n,
                      detail=dict(W=Wv, F=Fv, Q=Qs[qi], err=err), sub="predict", case=case)
+    # the same identity when W is declared structurally diagonal (the usual initial factor diag(sigma))
+    if part == 0 and n >= 2:
+        try:
+            fd = fn_predict_diag(n)
+            pd_ = sxvm.compile_fn(fd)
+        except Exception as ex:
+            res.count("evaluations")
+            res.fail(site="util.sqrt_covariance_predict", clause="operation_raises", cls="diag_declared_W", detail=dict(n=n, msg=str(ex)[:200]), sub="predict", case=case)
+            return res
+        for dv in itertools.product([1, 3], repeat=n):
+            for Fv in F_lattice(n, tier)[:: (1 if n == 2 else 3)]:
+                for qi in range(len(Qs)):
+                    res.count("evaluations")
+                    Q = [[Fraction(x) for x in r] for r in Qs[qi]]
+                    Fm = [[Fraction(Fv[i * n + j]) for j in range(n)] for i in range(n)]
+                    W = [[Fraction(dv[i]) if i == j else Fraction(0) for j in range(n)] for i in range(n)]
+                    outs, _ = sxvm.run(pd_, [[Fraction(v) for v in dv], colmajor(Fm), colmajor(Q)], sxvm.FRACTION)
+                    Wd = from_colmajor(sxvm.densify_out(fd, 0, outs[0], Fraction(0)), n, n)
+                    if any(v is sxvm.POISON for r in Wd for v in r):
+                        continue
+                    P = mm(W, tr(W))
+                    lhs = madd(mm(Wd, tr(W)), mm(W, tr(Wd)))
+                    rhs = madd(madd(mm(Fm, P), mm(P, tr(Fm))), Q)
+                    upper = [Wd[i][j] for i in range(n) for j in range(i + 1, n)]
+                    if lhs != rhs or any(u != 0 for u in upper):
+                        res.fail(site="util.sqrt_covariance_predict", clause="lyapunov_identity_exact", cls="n=%d;diag_declared_W" % n,
+                                 detail=dict(W_diag=list(dv), F=Fv, Q=Qs[qi]), sub="predict", case=case)
     res.samples.append(dict(fn="sqrt_covariance_predict", n=n, cases=len(cases), example=dict(W=cases[0][0], F=cases[0][1]) if cases else None))
     return res
 
